@@ -43,6 +43,8 @@ ASSUMPTIONS = [
 
 CTX = None
 FILE_STYLES = ["python", "c", "cpp", "html", "julia", "lisp", "bat", "jinja", "tex", "haskell", "ml", "plantuml"]
+# identifiers that differ in letter case only are different licences; they meet over the steps of a history
+CASE_TWINS = ["LicenseRef-acme", "LicenseRef-ACME", "LicenseRef-Acme"]
 HOLDER_POOL = ["Jane Doe", "ACME, Inc.", "Zoë Müller <zoe@example.org>", "The Project Authors", "Foo & Bar GmbH"]
 
 
@@ -55,9 +57,9 @@ class AnnotateMachine(RuleBasedStateMachine):
         self.ok_steps = 0
         self.interesting = False
 
-    @initialize(style=st.sampled_from(FILE_STYLES), init=st.sampled_from(["empty", "body", "own-single", "own-block", "foreign", "dotlicense"]),
+    @initialize(style=st.sampled_from(FILE_STYLES), init=st.sampled_from(["empty", "body", "own-single", "own-block", "foreign", "dotlicense", "ignore-blocks"]),
                 force_dot=st.integers(0, 4), h=st.sampled_from(HOLDER_POOL), y=V.year(),
-                lic=st.sampled_from(["MIT", "GPL-3.0-or-later", "Apache-2.0 OR MIT"]), con=st.sampled_from(HOLDER_POOL))
+                lic=st.sampled_from(["MIT", "GPL-3.0-or-later", "Apache-2.0 OR MIT", "LicenseRef-acme"]), con=st.sampled_from(HOLDER_POOL))
     def setup(self, style, init, force_dot, h, y, lic, con):
         self.root = self.ctx.fresh_dir()
         self.style = style
@@ -75,6 +77,15 @@ class AnnotateMachine(RuleBasedStateMachine):
             files[self.name] = "" if not self.force_dot else "x\n"
         elif init == "body":
             files[self.name] = body
+        elif init == "ignore-blocks":
+            # two comments that each hold a closed ignore block quoting tags: neither is a header, nothing is declared
+            def wrap(ls):
+                return "\n".join(S.wrap_single(style, ls) if S.has_single(style) else S.wrap_block(style, ls)) + "\n"
+
+            files[self.name] = (wrap(["REUSE-IgnoreStart", "SPDX-License-Identifier: LicenseRef-quoted", "REUSE-IgnoreEnd"]) + "\n" + body + "\n"
+                                + wrap(["REUSE-IgnoreStart", "Copyright (C) 1998 Quoted Holder", "SPDX-License-Identifier: LicenseRef-quoted", "REUSE-IgnoreEnd"]) + "more code\n")
+            if self.force_dot:
+                files[self.name] = body
         elif init in ("own-single", "own-block", "foreign"):
             if self.force_dot:
                 files[self.name] = body
@@ -109,7 +120,7 @@ class AnnotateMachine(RuleBasedStateMachine):
         return self.name + ".license" if (self.root / (self.name + ".license")).exists() else self.name
 
     @precondition(lambda self: self.root is not None and len(self.history) <= 6)
-    @rule(holders=st.lists(st.sampled_from(HOLDER_POOL), max_size=2, unique=True), licences=st.lists(V.expression(1), max_size=2, unique=True),
+    @rule(holders=st.lists(st.sampled_from(HOLDER_POOL), max_size=2, unique=True), licences=st.lists(st.one_of(V.expression(1), V.expression(1), st.sampled_from(CASE_TWINS)), max_size=2, unique=True),
           contributors=st.lists(st.sampled_from(HOLDER_POOL), max_size=2, unique=True),
           prefix=st.one_of(st.none(), st.sampled_from(sorted(V.PREFIXES))),
           years=st.one_of(st.lists(st.integers(1980, 2030).map(str), min_size=0, max_size=3), st.lists(V.year(), min_size=1, max_size=1)),
